@@ -141,6 +141,12 @@ class Flow:
                             work.append((k.value, m))
                     else:
                         work.append((site.value, m))
+                        tgts = site.targets if isinstance(site, ast.Assign) else [site.target]
+                        for t in tgts:
+                            while isinstance(t, (ast.Subscript, ast.Attribute)):
+                                if isinstance(t, ast.Subscript):
+                                    work.append((t.slice, m))
+                                t = t.value
 
     # convenience ------------------------------------------------------------
     def depends_on_param(self, expr, at, param):
